@@ -139,3 +139,28 @@ Print Assumptions c07_update_unsupported.
 Print Assumptions c07_example_update.
 Print Assumptions c07_example_item_data.
 Print Assumptions c07_legacy_refuted.
+
+(* ------------------------------------------------------------------------------------------
+   The envelope around those texts (Model/Envelope.v: _RequestManager.send_reply, the @notify
+   timestamp prefix, the CRLF of the writer): the Proxy Adapter finds the request id /
+   the millisecond timestamp as the first token and the text, token for token, after it. *)
+From LS Require Import Model.Envelope Proofs.BytesProofs Proofs.EnvelopeProofs.
+
+Theorem c07_reply_envelope : forall rid resp,
+  ~ In c_pipe rid ->
+  open_envelope (reply_message rid resp) = Some (rid, split_on c_pipe resp).
+Proof. exact reply_envelope. Qed.
+
+Theorem c07_notify_envelope : forall ts ntfy,
+  open_envelope (notify_message ts ntfy) = Some (Z_to_dec ts, split_on c_pipe ntfy)
+  /\ dec_value (Z_to_dec ts) = ts.
+Proof. exact notify_envelope. Qed.
+
+Theorem c07_reply_envelope_injective : forall r1 r2 a b,
+  ~ In c_pipe r1 -> ~ In c_pipe r2 ->
+  reply_message r1 a = reply_message r2 b -> r1 = r2 /\ a = b.
+Proof. exact reply_envelope_injective. Qed.
+
+Print Assumptions c07_reply_envelope.
+Print Assumptions c07_notify_envelope.
+Print Assumptions c07_reply_envelope_injective.
